@@ -383,4 +383,6 @@ def build():
     F.extend(c08_fams3.build(torch))
     from harness import c08_fams4
     F.extend(c08_fams4.build(torch))
+    from harness import c08_fams5
+    F.extend(c08_fams5.build(torch))
     return F
